@@ -86,6 +86,12 @@ def _machine(cfg: HistoryProperty, res: ShardResult, max_rules: int):
             def probe(self, kind, vclass, vsel, tclass, tsel, csel):
                 self._do(["probe", kind, vclass, vsel, tclass, tsel, csel])
 
+        if cfg.instr_bias.get("throttle"):
+
+            @rule(ssel=st.integers(0, 5), csel=st.integers(0, 3), fsel=st.integers(0, 4))
+            def throttle(self, ssel, csel, fsel):
+                self._do(["throttle", ssel, csel, fsel])
+
         if cfg.instr_bias.get("inject"):
 
             @rule(o=st.integers(0, 9), d=st.integers(0, 9))
